@@ -135,6 +135,20 @@ CHECKS["C19"] = dict(
          "scope; a worker's receive-compute-send is one scheduling step; tolerance 1e-4 absolute / 1e-5 relative.",
     ref="6/C19")
 
+CHECKS["C01"] = dict(
+    technique="TLA+ object state machine (ObjectSM) + TLC-enumerated mutator histories replayed on 13 class families with a fresh twin + TLC trace validation through ObjectSM (Val_C01: TwinBinding, Functional)",
+    text="ObjectSM specifies a memoising analysis object as a state machine over primary-input tokens with hand-written mutator effect "
+         "tables per class family (Network, directed Network, InteractingNetworks, GeoNetwork, ResNetwork, RecurrencePlot, RecurrenceNetwork, "
+         "CrossRecurrencePlot, JointRecurrencePlot, JointRecurrenceNetwork, ClimateNetwork, ClimateData, VisibilityGraph); TLC enumerates "
+         "every mutator history of the cfg depth, each is replayed on the real class and after every step ALL public argument-free methods "
+         "discovered on the object, argument patterns (link-attribute keys, typical weights, node groups, l_min) and summary attributes are "
+         "observed on the object and on a fresh twin built from the current abstract state; TLC replays the trace through ObjectSM and "
+         "decides at every step that the twin was built from the spec's state and that every observation equals the twin's.",
+    note="Oracle is a fresh twin, not a number.  Eigenvector centralities are not observed on directed / possibly disconnected networks "
+         "(not unique); random methods and plotting/IO are on an explicit skip list (props/netcommon.py).  Two concrete values per "
+         "component; histories of length 2 (quick) / 3 (thorough).",
+    ref="6/C01")
+
 NOT_APPLICABLE = {
     "C20": "memory safety of compiled kernels is a property of concrete addresses, not of abstract state a TLA+ "
            "specification maintains; nothing binds a PlusCal transcription of index arithmetic to the compiled code "
